@@ -40,7 +40,7 @@ const (
 	numPrintable       // NaN, ±0, ±Inf (symbolic within that class) or one of a few concrete finite values
 )
 
-var printableNums = []float64{1, -1.5, 0.5, 100000, 12345678, -0.25}
+var printableNums = []float64{1, -1.5, 0.5, 100000, 12345678, -0.25, 0.00001}
 
 func genNumber(name string, mode int) float64 {
 	if mode == numSymbolic {
@@ -80,9 +80,13 @@ func genOperand(name string, kinds []int, numMode int, maxLen int) operand {
 		o.s = asciiString(name+".s", l)
 	case kAbsent:
 	case kList:
-		cnt := 1 + vrt.Choice(name+".cnt", 2)
+		cnt := 1 + vrt.Choice(name+".cnt", vrt.Param("maxcnt", 2))
 		for i := 0; i < cnt; i++ {
-			l := vrt.Choice(name+".len"+strconv.Itoa(i), maxLen+1)
+			// entries have exactly one byte (plus the empty string for the first one)
+			l := 1
+			if i == 0 {
+				l = vrt.Choice(name+".len"+strconv.Itoa(i), 2)
+			}
 			o.ls = append(o.ls, asciiString(name+".s"+strconv.Itoa(i), l))
 		}
 	}
@@ -465,18 +469,26 @@ func VerifH_C01_Arith() {
 func VerifH_C01_Compare() {
 	L := vrt.Param("L", 2)
 	op := opEq + vrt.Choice("op", 6)
-	kinds := allKinds
-	if vrt.Param("lists", 1) == 0 {
-		kinds = scalarKinds
+	// A leaf-list compared with a boolean is left unspecified (XPath converts the node-set
+	// to a boolean, the property asks for an existential comparison): not asserted.
+	noBool := []int{kNum, kLit, kAbsent}
+	ka, kb := scalarKinds, scalarKinds
+	switch vrt.Param("lists", 0) {
+	case 1:
+		ka, kb = []int{kList}, noBool
+	case 2:
+		ka, kb = noBool, []int{kList}
+	case 3:
+		ka, kb = []int{kList}, []int{kList}
 	}
-	a := genOperand("a", kinds, numSymbolic, L)
-	b := genOperand("b", kinds, numSymbolic, L)
+	a := genOperand("a", ka, numSymbolic, L)
+	b := genOperand("b", kb, numSymbolic, L)
 	text := "a " + opText[op] + " b"
 	// known findings (see known-findings.json)
 	vrt.Class("C01-leaflist-on-right-of-eq-or-any-ne-is-run-error",
-		(op == opEq && b.kind == kList && a.kind != kAbsent) || (op == opNe && (a.kind == kList || b.kind == kList) && a.kind != kAbsent && b.kind != kAbsent))
-	vrt.Class("C01-leaflist-relational-uses-joined-string", op >= opLt && (a.kind == kList || b.kind == kList))
-	vrt.Class("C01-leaflist-vs-boolean-compares-each-entry", op == opEq && a.kind == kList && b.kind == kBool)
+		(op == opEq && b.kind == kList) || (op == opNe && (a.kind == kList || b.kind == kList)))
+	vrt.Class("C01-leaflist-relational-uses-joined-string", op >= opLt && (len(a.ls) > 1 || len(b.ls) > 1))
+	vrt.Class("C01-boolean-of-NaN-is-true", op <= opNe && ((a.kind == kBool && b.kind == kNum && vrt.IsNaN(b.n)) || (b.kind == kBool && a.kind == kNum && vrt.IsNaN(a.n))))
 	want := specCompare(op, a, b)
 	vrt.Reach("c01.compare." + opText[op])
 	r, ok := runTemplate(text, map[string]xpath.Datum{"a": a.datum(), "b": b.datum()})
@@ -525,7 +537,7 @@ func specRound(x float64) float64 {
 	up := x-fl >= 0.5
 	r := vrt.IteFloat64(up, fl+1, fl)
 	// negative zero for -0.5 <= x < 0 (and for -0 itself)
-	negz := vrt.And(r == 0, vrt.Or(x < 0, vrt.And(x == 0, 1/x < 0)))
+	negz := vrt.And(r == 0, vrt.Or(x < 0, vrt.And(x == 0, math.Signbit(x))))
 	r = vrt.IteFloat64(negz, math.Copysign(0, -1), r)
 	// NaN and infinities are returned unchanged
 	keep := vrt.Or(vrt.IsNaN(x), vrt.Or(x == math.Inf(1), x == math.Inf(-1)))
@@ -549,7 +561,7 @@ func VerifH_C01_NumFuncs() {
 		text, want = "ceiling(a)", math.Ceil(x)
 	case 3:
 		text, want = "round(a)", specRound(x)
-		vrt.Class("C01-round-negative-or-huge-arguments", vrt.Or(x < 0, vrt.Or(vrt.And(x == 0, 1/x < 0), vrt.Or(x >= 4503599627370496.0, vrt.And(x > 0.49999999999999989, x < 0.5)))))
+		vrt.Class("C01-round-negative-or-huge-arguments", vrt.Or(x < 0, vrt.Or(vrt.And(x == 0, math.Signbit(x)), vrt.Or(x >= 4503599627370496.0, vrt.And(x > 0.49999999999999989, x < 0.5)))))
 	}
 	vrt.Reach("c01.numfn." + text)
 	r, ok := runTemplate(text, map[string]xpath.Datum{"a": a.datum()})
